@@ -129,7 +129,71 @@ def mk_pdf(rng, R, D, kappa=None, scale=None, diag=False):
     return mk_measure("diag_pdf" if diag else "pdf", rng, R, D, kappa, scale)
 
 
+def pdf_via_update(rng, t, diag, warm=None):
+    """a density with the parameters of truth t that was *another* density first, was used (warm
+    is called on it: the check passes the very operations it is going to judge), and was then
+    overwritten row by row with update(). Must behave exactly like a fresh density N(t.mu, t.Sigma)."""
+    L = lib()
+    R, D = t.mu.shape
+    cls = L.pdf.GaussianDiagPDF if diag else L.pdf.GaussianPDF
+    with gen.calm():
+        other, _ = mk_pdf(rng, R, D, kappa=10.0, diag=diag)
+    if warm is not None:
+        try:
+            warm(other)
+        except Exception:
+            pass
+    target = cls(Sigma=J(t.Sigma), mu=J(t.mu))
+    order = rng.permutation(R)
+    k = int(rng.integers(1, R + 1))
+    other.update(JI_np(order[:k]), target.slice(JI_np(order[:k])))
+    if k < R:
+        other.update(JI_np(order[k:] - R), target.slice(JI_np(order[k:])))  # negative indices
+    return other
+
+
+def JI_np(a):
+    return np.asarray(a, dtype=np.int32)
+
+
 COND_KINDS = ("full", "diag", "identity", "identity_diag", "nn")
+
+
+def warm_conditional(c, rng, Dy, Dx, kw):
+    """use a conditional the way a caller would before its covariance is replaced by
+    update_Sigma: every public method once (errors are the business of the checks, not of the
+    warm-up)."""
+    try:
+        p0, _ = mk_pdf(rng, 1, Dx, kappa=10.0)
+        q0, _ = mk_pdf(rng, 1, Dy + Dx, kappa=10.0)
+    except Exception:
+        return
+    x0 = J(gen.vec(rng, 2, Dx))
+    calls = [
+        lambda: c.set_y(J(gen.vec(rng, 1 if c.R == 1 else c.R, Dy)), **kw),
+        lambda: c.set_y(J(gen.vec(rng, 4 if c.R == 1 else c.R, Dy)), **kw),
+        lambda: (c.condition_on_x_u(x0, **kw) if kw else c.condition_on_x(x0)),
+        lambda: c.affine_joint_transformation(p0, **kw),
+        lambda: c.affine_marginal_transformation(p0, **kw),
+        lambda: c.affine_conditional_transformation(p0, **kw),
+        lambda: c.conditional_entropy(p0, **kw),
+        lambda: (None if kw else c.mutual_information(p0)),
+        lambda: c.integrate_log_conditional(q0, **kw),
+        lambda: c.integrate_log_conditional_y(p0, y=J(gen.vec(rng, 1, Dy)), **kw),
+    ]
+    for f in calls:
+        try:
+            f()
+        except Exception:
+            pass
+
+
+def _history_cov(rng, Sig, diag):
+    """the covariance an object carries before update_Sigma(Sig): either unrelated, or only a few
+    parts in a million away from the final one (an update must never be skipped as 'no change')."""
+    if rng.random() < 0.3:
+        return Sig * (1.0 + 4e-6)
+    return gen.spd_batch(rng, Sig.shape[0], Sig.shape[1], 10.0, diag=diag)
 
 
 def _cov_args(rng, Sig):
@@ -154,9 +218,10 @@ def mk_conditional(kind, rng, R, Dy, Dx, kappa=None, zero_M=False, Du=2):
         Sig = gen.spd_batch(rng, R, Dy, kappa, diag=(kind == "identity_diag"))
         cls = C.ConditionalIdentityGaussianPDF if kind == "identity" else \
             C.ConditionalIdentityDiagGaussianPDF
-        if rng.random() < 0.2:
-            S0 = gen.spd_batch(rng, R, Dy, 10.0, diag=(kind == "identity_diag"))
+        if rng.random() < 0.25:
+            S0 = _history_cov(rng, Sig, kind == "identity_diag")
             obj = cls(**_cov_args(rng, S0))
+            warm_conditional(obj, rng, Dy, Dy, {})
             obj.update_Sigma(J(Sig))
         else:
             obj = cls(**_cov_args(rng, Sig))
@@ -178,10 +243,11 @@ def mk_conditional(kind, rng, R, Dy, Dx, kappa=None, zero_M=False, Du=2):
         mkw = {"M": J(M)}
         if not b_omitted:
             mkw["b"] = J(b)
-        if opt[2] < 0.2:
-            # history: built with another noise covariance, then update_Sigma to the final one
-            S0 = gen.spd_batch(rng, R, Dy, 10.0, diag=(kind == "diag"))
+        if opt[2] < 0.25:
+            # history: built with another noise covariance, used, then update_Sigma to the final one
+            S0 = _history_cov(rng, Sig, kind == "diag")
             obj = cls(**mkw, **_cov_args(rng, S0))
+            warm_conditional(obj, rng, Dy, Dx, {})
             obj.update_Sigma(J(Sig))
         else:
             obj = cls(**mkw, **_cov_args(rng, Sig))
@@ -198,13 +264,28 @@ def mk_conditional(kind, rng, R, Dy, Dx, kappa=None, zero_M=False, Du=2):
         def control_func(u):
             return jnp.tanh(u @ Wj) + bj
 
-        obj = C.NNControlGaussianConditional(Sigma=J(Sig), num_cond_dim=Dx, num_control_dim=Du,
-                                             control_func=control_func)
         u = gen.vec(rng, R, Du)
         out = np.tanh(u @ Wc) + bc
         M = out[:, : Dy * Dx].reshape(R, Dy, Dx)
         b = out[:, Dy * Dx:]
         kw = {"u": J(u)}
+        if rng.random() < 0.25:
+            # history: used with this very control input, then update_Sigma to the final noise
+            S0 = _history_cov(rng, Sig, False)
+            obj = C.NNControlGaussianConditional(Sigma=J(S0), num_cond_dim=Dx, num_control_dim=Du,
+                                                 control_func=control_func)
+            if R == 1:
+                warm_conditional(obj, rng, Dy, Dx, kw)
+            else:
+                try:
+                    obj.set_control_variable(kw["u"])
+                    obj.set_y(J(gen.vec(rng, R, Dy)), **kw)
+                except Exception:
+                    pass
+            obj.update_Sigma(J(Sig))
+        else:
+            obj = C.NNControlGaussianConditional(Sigma=J(Sig), num_cond_dim=Dx,
+                                                 num_control_dim=Du, control_func=control_func)
         return obj, Truth(M=M, b=b, Sigma=np.tile(Sig, (R, 1, 1))), kw
     raise KeyError(kind)
 
@@ -213,7 +294,7 @@ APPROX_KINDS = ("lrbf", "lsem", "het_exp", "het_cosh", "het_step", "het_relu")
 HET_KINDS = ("het_exp", "het_cosh", "het_step", "het_relu")
 
 
-def mk_approx(kind, rng, Dy, Dx, Dk, Da=None, wscale=0.6, kappa=None, zero_w=False):
+def mk_approx(kind, rng, Dy, Dx, Dk, Da=None, wscale=0.6, kappa=None, zero_w=False, yscale=1.0):
     """approximate conditionals. returns (obj, Truth)."""
     L = lib()
     A_ = L.approx
@@ -221,25 +302,57 @@ def mk_approx(kind, rng, Dy, Dx, Dk, Da=None, wscale=0.6, kappa=None, zero_w=Fal
         Sig = gen.spd_batch(rng, 1, Dy, kappa)
         M = gen.vec(rng, 1, Dy, Dx + Dk, scale=0.8)
         b = gen.vec(rng, 1, Dy)
+        hist = rng.random(2) < 0.25  # [update_Sigma history, update_phi history]
+        S_first = gen.spd_batch(rng, 1, Dy, 10.0) if hist[0] else Sig
         if kind == "lrbf":
             centers = gen.vec(rng, Dk, Dx, scale=1.0)
             ls = rng.uniform(0.7, 2.0, (Dk, Dx))
-            obj = A_.LRBFGaussianConditional(M=J(M), b=J(b), mu=J(centers), length_scale=J(ls),
-                                             Sigma=J(Sig))
-            return obj, Truth(M=M, b=b, Sigma=Sig, centers=centers, length_scale=ls, Dk=Dk)
-        W = gen.vec(rng, Dk, Dx + 1, scale=wscale)
-        W[:, 0] = rng.uniform(0.3, 1.2, Dk) * rng.choice([-1.0, 1.0], Dk)  # non-zero offsets
-        obj = A_.LSEMGaussianConditional(M=J(M), b=J(b), W=J(W), Sigma=J(Sig))
-        return obj, Truth(M=M, b=b, Sigma=Sig, W=W, Dk=Dk)
+            c0 = gen.vec(rng, Dk, Dx, scale=1.0) if hist[1] else centers
+            l0 = rng.uniform(0.7, 2.0, (Dk, Dx)) if hist[1] else ls
+            obj = A_.LRBFGaussianConditional(M=J(M), b=J(b), mu=J(c0), length_scale=J(l0),
+                                             Sigma=J(S_first))
+            t = Truth(M=M, b=b, Sigma=Sig, centers=centers, length_scale=ls, Dk=Dk)
+        else:
+            W = gen.vec(rng, Dk, Dx + 1, scale=wscale)
+            W[:, 0] = rng.uniform(0.3, 1.2, Dk) * rng.choice([-1.0, 1.0], Dk)  # non-zero offsets
+            W0 = W.copy()
+            if hist[1]:
+                W0 = gen.vec(rng, Dk, Dx + 1, scale=wscale)
+            obj = A_.LSEMGaussianConditional(M=J(M), b=J(b), W=J(W0), Sigma=J(S_first))
+            t = Truth(M=M, b=b, Sigma=Sig, W=W, Dk=Dk)
+        if hist.any():
+            # used first (moment matching and expected log-densities), then changed in place
+            try:
+                with gen.calm():
+                    p0, _ = mk_pdf(rng, 1, Dx, kappa=10.0, scale=0.5)
+                    q0, _ = mk_pdf(rng, 1, Dy + Dx, kappa=10.0, scale=0.5)
+                obj.affine_joint_transformation(p0)
+                obj.affine_conditional_transformation(p0)
+                obj.integrate_log_conditional(q0)
+                obj.integrate_log_conditional_y(p0, y=J(gen.vec(rng, 1, Dy)))
+            except Exception:
+                pass
+            if hist[0]:
+                obj.update_Sigma(J(Sig))
+            if hist[1]:
+                if kind == "lrbf":
+                    obj.mu = J(t.centers)
+                    obj.length_scale = J(t.length_scale)
+                else:
+                    obj.w0 = J(t.W[:, 0])
+                    obj.W = J(t.W[:, 1:])
+                obj.update_phi()
+        return obj, t
     cls = {"het_exp": A_.HeteroscedasticExpConditional,
            "het_cosh": A_.HeteroscedasticCoshM1Conditional,
            "het_step": A_.HeteroscedasticHeavisideConditional,
            "het_relu": A_.HeteroscedasticReLUConditional}[kind]
     Da = Da or Dy
     # A with bounded singular values so that AA' stays inside the domain guard
-    A = gen.lin_map(rng, 1, Dy, Da, smin=0.5, smax=2.0)
-    M = gen.lin_map(rng, 1, Dy, Dx)
-    b = gen.vec(rng, 1, Dy)
+    # yscale: the unit in which y is measured (A, M, b scale with it; the noise weights W do not)
+    A = gen.lin_map(rng, 1, Dy, Da, smin=0.5, smax=2.0) * yscale
+    M = gen.lin_map(rng, 1, Dy, Dx) * yscale
+    b = gen.vec(rng, 1, Dy) * yscale
     W = gen.vec(rng, Dk, Dx + 1, scale=wscale)
     W[:, 0] = rng.uniform(0.2, 0.8, Dk) * rng.choice([-1.0, 1.0], Dk)
     if zero_w:
